@@ -9,7 +9,9 @@
 //!             2 harness error (never silently 0).
 
 #![allow(dead_code)]
+mod argvgen;
 mod c02;
+mod c13;
 mod driver;
 mod findings;
 mod names;
